@@ -52,7 +52,7 @@ def case_strategy(draw):
         "emit": draw(st.sampled_from(EMITS)),
         "tpl": draw(st.sampled_from(TPLS)),
         "infer": draw(st.booleans()),
-        "prepend": draw(st.sampled_from([None, None, "import os\n", "from typing import Any\nimport json\n"])),
+        "prepend": draw(st.sampled_from([None, None, "import os\n", "from typing import Any\nimport json\n", "from __future__ import annotations\n", "from __future__ import annotations\nimport os\n", '"""Module doc."""\nfrom __future__ import annotations\nfrom typing import Any\n'])),
         "existing": draw(st.integers(0, 4)) == 0,
     }
 
